@@ -36,9 +36,17 @@ template <bool ASp, bool BSp, int UA, int UB, int FA, int FB, class SI>
 static void run_combo(vf::Ctx& ctx, int n, const std::string& name)
 {
     auto& r = ctx.rng;
-    const DMat<T> A = rand_herm<T>(r, n, ASp ? 0.35 : 1.0, 0.0);
-    const DMat<T> B = r.coin(0.7) ? rand_spd<T>(r, n, BSp ? 0.3 : 0.8) : rand_herm<T>(r, n, BSp ? 0.35 : 1.0, 0.0);
-    const T sigma = T(0.3 + r.uni()) * T(r.coin() ? 1 : -1);
+    DMat<T> A = rand_herm<T>(r, n, ASp ? 0.35 : 1.0, 0.0);
+    DMat<T> B = r.coin(0.7) ? rand_spd<T>(r, n, BSp ? 0.3 : 0.8) : rand_herm<T>(r, n, BSp ? 0.35 : 1.0, 0.0);
+    T sigma = T(0.3 + r.uni()) * T(r.coin() ? 1 : -1);
+    // inputs on which elimination without pivoting fails (tiny shifted diagonal next to O(1) couplings): B = I so that A - sigma B has that structure
+    {
+        T s2 = sigma;
+        DMat<T> A2 = A;
+        const int hc = hostile_shift_class<T, T>(r, A2, s2, true);
+        ctx.count("shift_class/" + std::to_string(hc));
+        if (hc != 0) { A = A2; sigma = s2; B = DMat<T>::Identity(n, n); }
+    }
     const MatCLD Fs = A.template cast<CLD>() - CLD((LD) sigma) * B.template cast<CLD>();
     Eigen::JacobiSVD<Eigen::MatrixXcd> svd(Fs.template cast<std::complex<double>>());
     const LD kap = (LD) (svd.singularValues()[0] / svd.singularValues()[n - 1]);
